@@ -98,7 +98,7 @@ def bfsClips : (fuel : Nat) → List SCtx → DocM (List SCtx)
         -- the child's attributes may have been touched by `_resolve_use` inside a clipPath: re-read
         let root2 ← getRoot
         let ch2 := (Node.findUid root2 ch.uid).getD ch
-        let a ← liftE (attribToPassOn c.attrib ch2.attrs)
+        let a ← liftE (attribToPassOnEl c.attrib ch2)
         kids := kids ++ [{ uid := ch.uid, tag := ch.tag, segs := c.segs ++ [(l, n)], transform := t,
                            clips := clips, attrib := a }]
     let more ← bfsClips fuel (rest ++ kids)
@@ -134,6 +134,11 @@ def strokePieces (shape : ShapeRec) (d : String) : ShapeRec × ShapeRec :=
   let st4 := resetStrokeFields (st3.set "fill_opacity" (.f 1.0))
   (sh2, st4)
 
+/-- what `_stroke` returns: the outline alone when the fill piece cannot paint, otherwise both pieces with their ids
+    cleared (`del shape.id`-style reset on the two copies) -/
+def strokeOut (mp : Bool) (sh2 st4 : ShapeRec) : List ShapeRec :=
+  if !mp then [st4] else [sh2.set "id" (.s ""), st4.set "id" (.s "")]
+
 /-- `SVG._stroke(shape)` → the pieces in draw order -/
 def strokeSplit (root : Node) (shape : ShapeRec) : DocM (List ShapeRec) := do
   let tol ← liftE (tolerance root)
@@ -145,8 +150,7 @@ def strokeSplit (root : Node) (shape : ShapeRec) : DocM (List ShapeRec) := do
   let res ← askCmds q
   let d ← liftE (Path.print res)
   let (sh2, st4) := strokePieces shape d
-  if !(← mightPaintM sh2) then return [st4]
-  pure [sh2.set "id" (.s ""), st4.set "id" (.s "")]
+  pure (strokeOut (← mightPaintM sh2) sh2 st4)
 
 def recEq (a b : ShapeRec) : Bool :=
   a.tag == b.tag && a.fields.length == b.fields.length &&
@@ -187,18 +191,22 @@ def simplifyShape (c : SCtx) (defsUid : Nat) : DocM Unit := do
     | none => fail .valueError
   if !(el.children.filter Node.isLxmlNode).isEmpty then fail .assertionError
   let identity := c.transform == (Aff.id : Aff Float)
-  let fillAttr := (el.getAttr "fill").getD ""
-  if !identity && (fillAttr.splitOn "url").length > 1 then
-    let fillEl ← liftE (resolveUrl root fillAttr "*")
-    applyGradientTemplate fillEl.uid 200
+  -- the fill paint, then the stroke paint (the outline that replaces the stroke is filled with it)
+  for paint in ["fill", "stroke"] do
     let root ← getRoot
     let el' := (Node.findUid root c.uid).getD el
-    let sh ← liftE (ShapeRec.fromElement el' [])
-    let cmds ← liftE sh.asCmdSeq
-    let (x1, y1, x2, y2) ← askBox (qCmds "bounding_box" cmds "")
-    let nid ← transformedGradient defsUid fillEl.uid c.transform ⟨x1, y1, x2 - x1, y2 - y1⟩
-    let root ← getRoot
-    setRoot (Node.updateUid root c.uid (fun n => n.setAttrs (n.attrs.set "fill" ("url(#" ++ nid ++ ")"))))
+    let paintAttr := (el'.getAttr paint).getD ""
+    if !identity && (paintAttr.splitOn "url").length > 1 then
+      let fillEl ← liftE (resolveUrl root paintAttr "*")
+      applyGradientTemplate fillEl.uid 200
+      let root ← getRoot
+      let el' := (Node.findUid root c.uid).getD el
+      let sh ← liftE (ShapeRec.fromElement el' [])
+      let cmds ← liftE sh.asCmdSeq
+      let (x1, y1, x2, y2) ← askBox (qCmds "bounding_box" cmds "")
+      let nid ← transformedGradient defsUid fillEl.uid c.transform ⟨x1, y1, x2 - x1, y2 - y1⟩
+      let root ← getRoot
+      setRoot (Node.updateUid root c.uid (fun n => n.setAttrs (n.attrs.set paint ("url(#" ++ nid ++ ")"))))
   let root ← getRoot
   let el := (Node.findUid root c.uid).getD el
   let sh0 ← liftE (ShapeRec.fromElement el [])
@@ -278,7 +286,7 @@ def rootOpacityToGroup : DocM Unit := do
 def simplifyCore : DocM Unit := do
   rootOpacityToGroup
   let root ← getRoot
-  let rootAttrib ← liftE (attribToPassOn Gen.inheritableAttribDefaults root.attrs)
+  let rootAttrib ← liftE (attribToPassOnEl Gen.inheritableAttribDefaults root)
   let ctxs ← bfsClips (Traverse.nodeCount root * 4 + 16)
     [{ uid := root.uid, tag := root.tag, segs := [("svg", 0)], transform := Aff.id, clips := [], attrib := rootAttrib }]
   let defsUid ← freshUid
